@@ -9,6 +9,31 @@ static const PropList &full_list()
   static const PropList l = {{{1, 0, 0}}, {{2, 0, 0}}, {{2, 1, 0}}, {{2, 2, 0}}, {{2, 3, 0}}, {{2, 4, 0}}, {{2, 5, 0}}, {{3, 0, 2}}, {{3, 1, 1}}, {{3, 2, 3}}, {{5, 0, 0}}, {{4, 0, 0}}};
   return l;
 }
+// The request may list the properties in any order (wide blocks - grains, velocity - before or after the one-value ones); the answers
+// are put back into the order of full_list() so that the oracles below can address them by fixed positions.
+static std::vector<size_t> layout_order(int layout)
+{
+  const size_t n = full_list().size();
+  std::vector<size_t> o(n);
+  for (size_t i = 0; i < n; ++i) o[i] = i;
+  if (layout == 1) o = {10, 7, 0, 9, 1, 2, 3, 8, 4, 5, 6, 11};       // velocity, grains, T, grains, ...
+  else if (layout == 2) std::reverse(o.begin(), o.end());
+  else if (layout == 3) std::rotate(o.begin(), o.begin() + 7, o.end()); // the three grains blocks and velocity first
+  return o;
+}
+static std::vector<double> query_canonical(const WB::World &W, const std::array<double, 3> &p, double depth, int layout)
+{
+  const std::vector<size_t> o = layout_order(layout);
+  PropList l;
+  for (size_t i : o) l.push_back(full_list()[i]);
+  const std::vector<double> raw = W.properties(p, depth, l);
+  std::vector<size_t> start(full_list().size() + 1, 0);
+  for (size_t i = 0; i < full_list().size(); ++i) start[i + 1] = start[i] + prop_width(full_list()[i]);
+  std::vector<double> out(start.back(), 0.0);
+  size_t pos = 0;
+  for (size_t i : o) { for (unsigned k = 0; k < prop_width(full_list()[i]); ++k) out[start[i] + k] = raw[pos + k]; pos += prop_width(full_list()[i]); }
+  return out;
+}
 static const char *slot_name(size_t i)
 {
   static const char *n[] = {"T", "c0", "c1", "c2", "c3", "c4", "c5", "grains(0,2)", "grains(1,1)", "grains(2,3)", "velocity", "tag"};
@@ -144,6 +169,7 @@ static J gen_fold(Chooser &ch)
   J c = J::obj();
   c["world"] = w.root.dump();
   c["queries"] = g::gen_queries(ch, w, static_cast<int>(ch.range(2, 10)), 92);
+  c["layout"] = static_cast<int>(ch.range(0, 3)); // order of the properties in the request (the oracle is the same for all)
   return c;
 }
 
@@ -215,7 +241,9 @@ static Result check_fold(const J &c)
                     }
                 }
         }
-      const std::vector<double> out = W->properties(p3(q.at("p")), depth, full_list());
+      const int layout = c.has("layout") ? static_cast<int>(c.at("layout").num()) : 0;
+      const std::vector<double> out = query_canonical(*W, p3(q.at("p")), depth, layout);
+      if (layout) r.classes.push_back("request lists wide blocks before the temperature");
       r.inner++;
       if (cov.size() >= 2 && ops.size() >= 2) { r.nontrivial = true; r.inner_nt++; }
       r.classes.push_back("covering=" + std::to_string(std::min<size_t>(cov.size(), 4)));
